@@ -37,9 +37,10 @@ func stagePrefix(stage string) (netsim.Options, []string) {
 	case "ready":
 		return netsim.Options{}, []string{"version", "verack", "headers[bsv-split]"}
 	case "ready-tx":
-		return netsim.Options{TxManager: true}, []string{"version", "verack", "headers[bsv-split]"}
+		// with a secondary headers handler installed, as for every node the node manager creates
+		return netsim.Options{TxManager: true, HeaderHandler: true}, []string{"version", "verack", "headers[bsv-split]"}
 	case "ready-block":
-		return netsim.Options{TxManager: true}, []string{"version", "verack", "headers[bsv-split]", "!request-block1"}
+		return netsim.Options{TxManager: true, HeaderHandler: true}, []string{"version", "verack", "headers[bsv-split]", "!request-block1"}
 	case "ready-block-pieces":
 		// the same stage with the stream arriving in pieces (reads of at most 7 bytes)
 		return netsim.Options{TxManager: true, ReadChunk: 7}, []string{"version", "verack", "headers[bsv-split]", "!request-block1"}
